@@ -13,7 +13,7 @@ EXTENDS Formats, TLC
 CONSTANTS Codes,          \* set of format codes <<hi16, lo16>> (packed and indexed formats)
           Mutant          \* "none" | "zerofill" | "clobber" | "bgra"
 
-VARIABLE cs
+VARIABLES vkind, vcode, vraw, vpal, vbpp, vbuf, vx
 
 (* the packed and indexed formats pixman_format_supported_source accepts in the pinned tree      *)
 (* (checks/pixel.py compares this list with what the library built from /repo reports)          *)
@@ -78,22 +78,36 @@ WordsOf(f) ==
                        WAdd(PutW(vg, CShift(f, "g"), f.g), PutW(vb, CShift(f, "b"), f.b))), u) :
                  va \in Bnd(f.a), vr \in Bnd(f.r), vg \in Bnd(f.g), vb \in Bnd(f.b), u \in U}
 
-PixelCases == UNION {{[kind |-> "pixel", code |-> c, raw |-> w, pal |-> 0, bpp |-> 0, buf |-> <<>>, x |-> 0] :
-                         w \in WordsOf(Fmt(c))} : c \in {c \in Codes : IsPacked(Fmt(c))}}
-IndexCases == UNION {{[kind |-> "index", code |-> c, raw |-> <<0, i>>, pal |-> k, bpp |-> 0, buf |-> <<>>, x |-> 0] :
-                         i \in 0..(P2(Fmt(c).bpp) - 1), k \in 0..3} : c \in {c \in Codes : IsIndexed(Fmt(c))}}
+(* a small format list for the negative configurations (they must fail fast) *)
+NegCodes == {<<8200, 34952>>, <<8200, 2184>>, <<2049, 32768>>, <<2050, 818>>, <<1025, 16384>>, <<1028, 0>>}
+
+PackedCodes  == {c \in Codes : IsPacked(Fmt(c))}
+IndexedCodes == {c \in Codes : IsIndexed(Fmt(c))}
 
 Bufs == {[i \in 1..12 |-> 0], [i \in 1..12 |-> 255], [i \in 1..12 |-> (i * 37 + 90) % 256]}
-RawVals(bpp) == IF bpp <= 16 THEN {<<0, 0>>, <<0, P2(bpp) - 1>>, <<0, (P2(bpp) - 1) \div 3>>}
-                ELSE IF bpp = 24 THEN {<<0, 0>>, <<255, 65535>>, <<165, 23130>>}
-                ELSE {<<0, 0>>, <<65535, 65535>>, <<42405, 23130>>}
-FrameCases == UNION {{[kind |-> "frame", code |-> WZero, raw |-> w, pal |-> 0, bpp |-> bpp, buf |-> b, x |-> x] :
-                         w \in RawVals(bpp), b \in Bufs, x \in 0..((96 \div bpp) - 1)} : bpp \in {1, 4, 8, 16, 24, 32}}
-LemmaCase == [kind |-> "lemma", code |-> WZero, raw |-> WZero, pal |-> 0, bpp |-> 0, buf |-> <<>>, x |-> 0]
+RawVals(b) == IF b <= 16 THEN {<<0, 0>>, <<0, P2(b) - 1>>, <<0, (P2(b) - 1) \div 3>>}
+              ELSE IF b = 24 THEN {<<0, 0>>, <<255, 65535>>, <<165, 23130>>}
+              ELSE {<<0, 0>>, <<65535, 65535>>, <<42405, 23130>>}
 
-MCInit == cs \in PixelCases \cup IndexCases \cup FrameCases \cup {LemmaCase}
-MCNext == UNCHANGED cs
-MCSpec == MCInit /\ [][MCNext]_cs
+(* The initial states are seeds (a format and one sixteenth of its raw values, ...); one step   *)
+(* leads from a seed to each of its cases, so that TLC's workers share the enumeration.       *)
+Slice(W, k) == {w \in W : (w[1] + w[2]) % 16 = k}
+MCInit ==
+    /\ vkind \in {"seed-pixel", "seed-index", "seed-frame", "lemma"}
+    /\ vcode \in (CASE vkind = "seed-pixel" -> PackedCodes [] vkind = "seed-index" -> IndexedCodes [] OTHER -> {WZero})
+    /\ vx \in (IF vkind = "seed-pixel" THEN 0..15 ELSE {0})
+    /\ vbpp \in (IF vkind = "seed-frame" THEN {1, 4, 8, 16, 24, 32} ELSE {0})
+    /\ vraw = WZero /\ vpal = 0 /\ vbuf = <<>>
+MCNext ==
+    \/ /\ vkind = "seed-pixel" /\ vkind' = "pixel" /\ vraw' \in Slice(WordsOf(Fmt(vcode)), vx)
+       /\ UNCHANGED <<vcode, vpal, vbpp, vbuf, vx>>
+    \/ /\ vkind = "seed-index" /\ vkind' = "index" /\ vraw' \in {<<0, i>> : i \in 0..(P2(Fmt(vcode).bpp) - 1)}
+       /\ vpal' \in 0..3 /\ UNCHANGED <<vcode, vbpp, vbuf, vx>>
+    \/ /\ vkind = "seed-frame" /\ vkind' = "frame" /\ vraw' \in RawVals(vbpp)
+       /\ vbuf' \in Bufs /\ vx' \in 0..((96 \div vbpp) - 1) /\ UNCHANGED <<vcode, vpal, vbpp>>
+vars == <<vkind, vcode, vraw, vpal, vbpp, vbuf, vx>>
+cs == [kind |-> vkind, code |-> vcode, raw |-> vraw, pal |-> vpal, bpp |-> vbpp, buf |-> vbuf, x |-> vx]
+MCSpec == MCInit /\ [][MCNext]_vars
 
 (* ---- widening under test ---- *)
 Rep(v, f, t) == IF Mutant = "zerofill" /\ t > f THEN v * P2(t - f) ELSE Widen(v, f, t)
@@ -179,5 +193,5 @@ RowFrameLaw ==
            pxs == <<DecodeWord(A8R8G8B8, <<65535, 65535>>), DecodeWord(A8R8G8B8, <<0, 0>>), DecodeWord(A8R8G8B8, <<33023, 255>>)>>
            nb == StoreRow(cs.buf, f, 0, cs.x, pxs)
        IN /\ SameOutside(cs.buf, nb, cs.x * cs.bpp, (cs.x + 3) * cs.bpp)
-          /\ RowConvOK(f, 0, pxs, nb, cs.x)
+          /\ \A i \in 1..3 : PixelConvOK(f, 0, pxs[i], nb, cs.x + i - 1)
 =============================================================================
